@@ -2,7 +2,7 @@
 
   regenerate : T-sym traces of angle-taking / packed-vs-scalar entry points (deg vs rad, call forms)
   prove      : Props/C15.v (hand model of argcheck.getvector/isvector/getunit, all lists, axiom-free)
-               Props/C15_units.v (trace equalities over R)
+               Props/C15_units.v, Props/C15_forms.v (trace equalities over R)
   correspond : hand model vs the real getvector/isvector/getunit on a form x shape x dim x out grid (vm_compute)
                + Sym==Num for the traces
   oracle     : exhaustive differential run over the table below (entry x 5 forms x lengths 0..8 x int/float)
@@ -956,6 +956,25 @@ def build(ctx):
     tr('tr_SE3_nd', [('v', 'V3')], lambda v: A_(SE3(v)))
     tr('tr_SE2_xy_s', [('x', 'S'), ('y', 'S')], lambda x, y: A_(SE2(x, y)))
     tr('tr_SE2_xy_list', [('v', 'V2')], lambda v: A_(SE2(list(v))))
+    # ---- container forms of the functions that gained the shared argument conversion in the fix rounds
+    # (norm, normsq 27fbc71; cross 961176d; vvmul bc3ebca; SE2.Exp 8585593): every form is traced
+    FORMS = {'list': lambda v: list(v), 'tuple': lambda v: tuple(v), 'nd': lambda v: v,
+             'row': lambda v: v.reshape(1, -1), 'col': lambda v: v.reshape(-1, 1)}
+    for nm in 'uvw':
+        for i, x in enumerate([0.15, 0.25, -0.35]):
+            concolic.VAL[sympy.Symbol(f'{nm}{i}', real=True)] = x
+    smallv = lambda rng: [rng.uniform(-0.5, 0.5, size=3), rng.uniform(-0.5, 0.5, size=3)]
+    for fn, f in FORMS.items():
+        tr(f'tr_norm_{fn}', [('v', 'V3')], (lambda f: lambda v: b.norm(f(v)))(f), optional=True)
+        tr(f'tr_normsq_{fn}', [('v', 'V3')], (lambda f: lambda v: b.normsq(f(v)))(f), optional=True)
+        tr(f'tr_cross_u_{fn}', [('u', 'V3'), ('v', 'V3')], (lambda f: lambda u, v: b.cross(f(u), v))(f), optional=True)
+        tr(f'tr_cross_v_{fn}', [('u', 'V3'), ('v', 'V3')], (lambda f: lambda u, v: b.cross(u, f(v)))(f), optional=True)
+        tr(f'tr_vvmul_a_{fn}', [('u', 'V3'), ('v', 'V3')], (lambda f: lambda u, v: b.vvmul(f(u), v))(f), sampler=smallv, tol=1e-10, optional=True)
+        tr(f'tr_vvmul_b_{fn}', [('u', 'V3'), ('v', 'V3')], (lambda f: lambda u, v: b.vvmul(u, f(v)))(f), sampler=smallv, tol=1e-10, optional=True)
+    nzw = lambda rng: [np.r_[rng.uniform(-2, 2, size=2), rng.choice([-1, 1]) * rng.uniform(0.2, 2.5)]]
+    for fn in ('list', 'tuple', 'nd'):
+        tr(f'tr_SE2_Exp_{fn}', [('w', 'V3')], (lambda f: lambda w: A_(SE2.Exp(f(w))))(FORMS[fn]), sampler=nzw, tol=1e-9, optional=True,
+           note='one path: rotational twist (|w2| above the zero threshold)')
     # angle-axis (one path: |v| above the zero thresholds; the shadow valuation decides the comparisons)
     for i, x in enumerate([0.3, 0.5, -0.7]):
         concolic.VAL[sympy.Symbol(f'v{i}', real=True)] = x
@@ -1063,6 +1082,7 @@ def run(ctx):
     ctx.prove('theories/Props/C15.v')
     if gen_ok:
         ctx.prove('theories/Props/C15_units.v')
+        ctx.prove('theories/Props/C15_forms.v')
     with ctx.timed('correspond:model'):
         model_corr(ctx)
     if gen_ok:
@@ -1076,6 +1096,8 @@ def run(ctx):
         multi_run(ctx)
     ctx.stats['table:entries'] = len(table())
     ctx.stats['traces'] = len(g.traces)
+    for nm, why in g.failed:
+        ctx.notes.append(f'trace {nm} could not be generated ({why[:120]}): the theorems that mention it are broken obligations')
 
 
 if __name__ == '__main__':
